@@ -274,21 +274,23 @@ theorem slotOkB_sound (S : Schema) (f : FieldD) : ∀ (v : Val), slotOkB S f v =
   | .ph, h => by
     rw [slotOkB] at h
     simp only [Bool.or_eq_true, Bool.and_eq_true, Bool.not_eq_true'] at h
-    rcases h with ((((h | h) | h) | h) | h) | h
+    rcases h with (((((h | h) | h) | h) | h) | h) | h
     · exact SlotOk.flat f .ph (flatFieldB_sound f h.1) (by simp [flatSlotOk, h.2])
     · obtain ⟨c, hc⟩ := subFieldAnyB_sound f h.1; exact SlotOk.unsetSub f c hc h.2
     · obtain ⟨b, hb⟩ := timeFieldAnyB_sound f h.1; exact SlotOk.unsetTime f b hb h.2
     · obtain ⟨w, hw⟩ := wrapFieldAnyB_sound f h.1; exact SlotOk.unsetWrap f w hw h.2
     · exact SlotOk.unsetMapS f (mapFieldSB_sound f h)
     · obtain ⟨c, hc⟩ := mapFieldMAnyB_sound f h; exact SlotOk.unsetMapM f c hc
+    · exact SlotOk.unsetAny f h
   | .none, h => by
     rw [slotOkB] at h
     simp only [Bool.or_eq_true, Bool.and_eq_true, Option.isNone_iff_eq_none] at h
-    rcases h with ((h | h) | h) | h
+    rcases h with (((h | h) | h) | h) | h
     · exact SlotOk.flat f .none (flatFieldB_sound f h.1) (by simp [flatSlotOk, h.2])
     · obtain ⟨c, hc⟩ := subFieldAnyB_sound f h.1; exact SlotOk.noneSub f c hc h.2
     · obtain ⟨b, hb⟩ := timeFieldAnyB_sound f h.1; exact SlotOk.noneTime f b hb h.2
     · obtain ⟨w, hw⟩ := wrapFieldAnyB_sound f h.1; exact SlotOk.noneWrap f w hw h.2
+    · exact SlotOk.noneAny f h
   | .msg c sl ow unk cur, h => by
     rw [slotOkB] at h
     simp only [Bool.and_eq_true, Bool.not_eq_true'] at h
